@@ -1,5 +1,6 @@
 (* C10 -- executable model of KDMixCollator.collate (kappadata/collators/kd_mix_collator.py,
-   REPAIRED tree: fixes/C10_sample_flag_bbox.patch, fixes/C10_set_item_single.patch) and of the
+   REPAIRED tree: fixes/C10_sample_flag_bbox.patch, fixes/C10_set_item_single.patch,
+   fixes/C10_multiview_single_mode.patch) and of the
    ModeWrapper.get_item/set_item plumbing it uses.  No proofs in this file.
 
    Samples are represented by their position in the batch (0..B-1).  The model follows the
@@ -33,7 +34,8 @@ Record cfg := {
   tokens : list token;       (* dataset_mode.split(" ") *)
   x_rank : nat;              (* x.ndim - 1: number of dimensions of one sample (3 for C x H x W images) *)
   x_float : bool;            (* x has a floating point dtype *)
-  lab_ndim : nat             (* y.ndim of the collated "class" item (2: rows, 1: binary scalars) *)
+  lab_ndim : nat;            (* y.ndim of the collated "class" item (2: rows, 1: binary scalars) *)
+  x_views : nat              (* 0: the collated "x" item is one tensor; n > 0: a list of n view tensors (multi-view samples) *)
 }.
 
 (* ---------- draws ---------- *)
@@ -55,6 +57,7 @@ Inductive err :=
 | ECast            (* x.mul_(lamb) on an integer image: RuntimeError (result type Float can't be cast) *)
 | EView            (* lamb[i].view() without arguments on 0-d samples: TypeError *)
 | ENoX             (* len(None): the mode has no "x" item: TypeError *)
+| EMultiView       (* assert torch.is_tensor(x): the "x" item is a list of views *)
 | EItem.           (* get_item / set_item on a batch that does not fit the mode (not reachable from a ModeWrapper) *)
 Inductive res (A : Type) := Ok (a : A) | Err (e : err).
 Arguments Ok {A} a.
@@ -157,7 +160,8 @@ Fixpoint set_at {A} (k : nat) (v : A) (l : list A) : list A :=     (* tuple(it i
   | _ :: r, O => v :: r
   | x :: r, S k' => x :: set_at k' v r
   end.
-(* a non-tuple batch (single-item mode) is represented as a one-element list *)
+(* a single-item mode (decided by the MODE, repaired: the batch of mode "x" is the x item itself, also when that item
+   is a list of views) is represented as a one-element list *)
 Definition set_item {A} (mode : list token) (t : token) (batch : list A) (v : A) : option (list A) :=
   match mode with
   | [_] => Some [v]                                    (* repaired: not a tuple -> return value *)
@@ -310,6 +314,8 @@ Definition collate_batch (c : cfg) (halves : list (Z * Z)) (Y : list (list Q)) (
   : M (list item * ctx_t * result) :=
   let mode := tokens c in
   idx <- lift EItem (if has_item mode TIndex then option_map Some (get_item mode TIndex batch) else Some None) ;;
+  (* x = get_item(...); assert torch.is_tensor(x) -- before the label is looked at and before any draw *)
+  _ <- (if has_item mode TX && negb (Nat.eqb (x_views c) 0) then fail EMultiView else ret tt) ;;
   _ <- (if has_item mode TClass && negb (labels_accepted (lab_ndim c) Y) then fail EAssertLabel else ret tt) ;;
   r <- collate c halves ;;
   let ctx' := ctx_set KLambda (VLams (ctx_lambda r))
